@@ -33,7 +33,8 @@ def slices_travel(inp, out, pos_name):
 
 class C17(Prop):
     id = "C17"
-    theorems = []
+    theorems = ["takeAxisPos_get", "takeAxisPos_labels", "takeAxisPos_other_axes", "sortAxis_sorted", "sortAxis_perm",
+                "compressAxis_labels", "fillna_spec", "setna_spec", "dropna_mask_spec"]
     rule = ("arrays of rank 1-4 with unsorted int/float/str labels, every axis by name / position, NaN patterns none / "
             "some / whole slices / all; sort_axis (plain, key function, dict key), take_axis (labels / positions, repeats, "
             "mode raise / clip), compress_axis with every mask, dropna with minvalid from 0 to the slice size (default "
